@@ -26,7 +26,7 @@ CHECKS.update({
    design_ref="§3 C05"),
  "C08": dict(level="exploration", engine="sdoc-explorer",
    technique="bounded exhaustive enumeration of failing parses against the attempt-forest oracle (furthest position, soundness of both lists, collapse rule as equality with the fold)",
-   text="Every failing (grammar, rule, input) of the shared corpus on the VM: reported position must be the furthest reportable attempt, every listed rule must have been attempted exactly there with the right polarity, lists strictly ascending, and the lists must equal the fold of DESIGN Appendix B over the attempt forest of S_doc on the optimized rules.",
+   text="Every failing (grammar, rule, input) of the shared corpus on the VM: reported position must be the furthest reportable attempt, every listed rule must have been attempted exactly there with the right polarity, lists strictly ascending, and the lists must equal the fold of DESIGN Appendix B over the attempt forest of S_doc on the optimized rules; wherever the two attempt-merging passes (factor, list) did not apply, the same fold on the written (unoptimized) grammar must give the same report, so a pass that removes reportable attempts is seen.",
    note="Reportable = non-silent rule or EOI whose rule() runs outside Atomic mode. Generated back-end: through C02's VM/generator equality on error position and lists.",
    design_ref="§3 C08, Appendix B"),
  "C12": dict(level="exploration", engine="sdoc-explorer",
@@ -98,12 +98,12 @@ CHECKS.update({
 })
 CHECKS["C17"] = dict(level="model_checking", engine="loom-debugger",
    technique="loom (DPOR with iterated preemption bound) over the real debugger source rebound to loom primitives; every explored schedule is a run of the real code checked against the reference entries of the parse (S_doc on the optimized rules); plus exhaustive command-line sessions of the real pest_debugger binary",
-   text="The real debugger/src/lib.rs is recompiled with its std::sync / std::thread imports bound to loom-backed shims (build.rs, no repository hook) and five controller scripts (run-to-end, breakpoint edits while stopped, re-run after the first event, immediate re-run with the precondition enforced exactly, re-run after the end) are explored (with the S2 edit variants: delete, delete-all, delete-all-then-add, add-all, swap) for twelve grammar/input/breakpoint scenarios (incl. breakpoints on built-ins, silent rules, implicit WHITESPACE, stack built-ins, an input beginning with a byte order mark, an input beginning with blanks) and channel capacities 1 and 2, at preemption bounds 0..4 (quick) and 0..6 plus unbounded with a time cap (thorough); scripts S1-S4 are additionally explored with one spurious return of thread::park (which std permits) at the first or second wait, at bounds 0..2. In every schedule the delivered events must equal the entries of the parse - taken from the reference model S_doc run on the optimized rules, with which the VM's own listener trace is compared sequentially - filtered by the breakpoint set and followed by Eof or the plain VM error text, nothing may arrive between a breakpoint and its cont, and every run() must return with all threads able to terminate (loom reports deadlocks). The command-line front end (debugger/src/main.rs) is driven as the real binary built from /repo: up to 9 session forms (options in three orders, typed commands in short and long verbs, mixtures, input given by `id`) x 12 scenarios, printed event stream compared with the same expectation.",
+   text="The real debugger/src/lib.rs is recompiled with its std::sync / std::thread imports bound to loom-backed shims (build.rs, no repository hook) and six controller scripts (run-to-end, breakpoint edits while stopped, re-run after the first event, immediate re-run with the precondition enforced exactly, re-run after the end, a surplus cont at the last stop followed by a re-run) are explored (with the S2 edit variants: delete, delete-all, delete-all-then-add, add-all, swap) for twelve grammar/input/breakpoint scenarios (incl. breakpoints on built-ins, silent rules, implicit WHITESPACE, stack built-ins, an input beginning with a byte order mark, an input beginning with blanks) and channel capacities 1 and 2, at preemption bounds 0..4 (quick) and 0..6 plus unbounded with a time cap (thorough); scripts S1-S4 are additionally explored with one spurious return of thread::park (which std permits) at the first or second wait, at bounds 0..2. In every schedule the delivered events must equal the entries of the parse - taken from the reference model S_doc run on the optimized rules, with which the VM's own listener trace is compared sequentially - filtered by the breakpoint set and followed by Eof or the plain VM error text, nothing may arrive between a breakpoint and its cont, and every run() must return with all threads able to terminate (loom reports deadlocks). The command-line front end (debugger/src/main.rs) is driven as the real binary built from /repo: up to 9 session forms (options in three orders, typed commands in short and long verbs, mixtures, input given by `id`) x 12 scenarios, printed event stream compared with the same expectation.",
    note="More than one spurious park wake-up per execution, rendezvous channels (capacity 0) and orderings weaker than loom's C11 model are not explored; the bounded channel is the harness' loom model of sync_channel.",
    design_ref="§3 C17")
 CHECKS["C02"] = dict(level="translation_validation", engine="compiled-corpus-differential",
    technique="differential execution of parsers generated by the current #[derive(Parser)] (corpus compiled at harness build time) against pest_vm on the same grammar text, exhaustively over rules x bounded inputs, in supervised worker processes",
-   text="A corpus of ~1700 (quick) / ~5000 (thorough) grammars per feature configuration - every operator form x rule modifier x WHITESPACE/COMMENT modifier x caller modifier, size-ordered trees, all ASCII built-ins and sample Unicode names, user rules named like non-keyword built-ins, stack-op grammars, many-rule error shapes, and under grammar-extras tagged / PUSH_LITERAL forms - is compiled with the repository's current derive macro; every rule of every grammar is run on every input up to length 4 (5) by the generated parser and by the VM. Agreement: same flattened (rule, span, tag) list, or same error position and same expected/unexpected name sets, or both panic.",
+   text="A corpus of ~1700 (quick) / ~5000 (thorough) grammars per feature configuration - every operator form x rule modifier x WHITESPACE/COMMENT modifier x caller modifier, size-ordered trees, all ASCII built-ins (also on non-ASCII look-alikes) and every advertised Unicode property name, grammars read from files through #[grammar = path] (raw CR/LF inside literals), user rules named like non-keyword built-ins, stack-op grammars, many-rule error shapes, and under grammar-extras tagged / PUSH_LITERAL forms - is compiled with the repository's current derive macro; every rule of every grammar is run on every input up to length 4 (5) by the generated parser and by the VM. Agreement: same flattened (rule, span, tag) list, or same error position and same expected/unexpected name sets, or both panic.",
    note="The corpus must compile, so its grammar bound is lower than C01's; grammars that pest accepts but that do not terminate are kept out; rebuilding the corpus after a change to pest/meta/generator costs ~15-25 s per configuration.",
    design_ref="§3 C02")
 PENDING = {}
